@@ -119,9 +119,16 @@ impl<L: Localize> OpeningHours<L> {
         (self.expr.rules)
             .iter()
             .map(|rule| {
-                if rule.time_selector.is_immutable_full_day()
-                    || !rule.day_selector.filter(date, &self.ctx)
-                {
+                let matches_today = rule.day_selector.filter(date, &self.ctx);
+
+                // A rule that matched yesterday may still spill over today
+                let spills_today = !matches_today
+                    && !rule.time_selector.is_immutable_full_day()
+                    && date
+                        .pred_opt()
+                        .is_some_and(|prev| rule.day_selector.filter(prev, &self.ctx));
+
+                if rule.time_selector.is_immutable_full_day() || !(matches_today || spills_today) {
                     rule.day_selector.next_change_hint(date, &self.ctx)
                 } else {
                     date.succ_opt()
